@@ -389,7 +389,8 @@ def check(run):
     run.coverage["trusted_base"] += ["Model/X64Mem.lean `decode`: the reader's side written from the Intel SDM (ModRM/SIB/VSIB forms); cross-checked here against llvm-mc's disassembler on every byte string",
                                      "llvm-mc 14 (independent decoder, Intel syntax) and lib/c13.py parse_intel_mem",
                                      "harness/plug (plugin in-process), harness/dyn (real dynasm! through rustc)"]
-    run.assumptions += ["type-mapped operands (`reg => Type[idx].field`, runtime scale), segment prefixes and 16-bit addressing (never accepted) are outside the model",
+    run.assumptions += ["type-mapped operands (`reg => Type[idx].field`, scale = size_of evaluated by rustc) are outside the Lean model and checked by execution against the Rust types (lib/x64tm.py); "
+                        "segment prefixes and 16-bit addressing (never accepted) are outside the model",
                         "protected-mode `[eip + x]` is emitted as an absolute relocation: outside the theorem, compared as 'reloc' only",
                         "a dynamic register that lands in the SIB index field must not be 4 at run time (documented as unchecked): excluded from the property, bytes still compared"]
     ok, log = common.build_harness("plug")
@@ -553,6 +554,9 @@ def check(run):
             coef, disp, width = lin
             if coef != m["coef"] or (disp - m["disp"]) % (1 << 32) != 0 or (width is not None and width != m["width"]):
                 report("decoder-differs", shape, f"{b.hex()}: llvm-mc reads `{text}`, the model's SDM reader {ma}", dict(payload, impl=b.hex(), model=ma, disassembly=text), found=False)
+    # type-mapped operands (`reg => Type[index].field`): outside the model (the scale is a Rust constant expression), checked by execution
+    import x64tm
+    stats["type_mapped"] = x64tm.sweep(run, thorough)
     run.coverage["evaluations"] = len(results)
     run.coverage["distinct_nontrivial"] = stats["accepted"]
     run.coverage["rule"] = ("long mode: every 64-bit base x index x scale x displacement class, single scaled registers (1..10,16) with/without NOSPLIT, repeated registers, 3-register "
